@@ -105,7 +105,15 @@ class P(Prop):
         self.search_cases += 1
         if o != "ok":
             clash = any(f"{x}_cg_unroll_{t}" in c.graph.nodes for x in c.io() for t in range(steps))
-            self.fail("search", f"unroll-raised-{o}" + (":name-clash" if clash else ""), f"unroll raised {o}", case)
+            tag = ":name-clash" if clash else ""
+            if o == "ValueError":
+                # K50 (narrow, the condition of the theorem C09.unroll_ok_iff): a per-step io name, as `uid` makes it,
+                # equals the name of a spliced copy `unrolled_<k>_<node>` or another per-step io name
+                step = [c.uid(f"{x}_cg_unroll_{t}") for x in sorted(c.io()) for t in range(steps)]
+                copies = {f"unrolled_{k}_{y}" for k in range(steps) for y in c.graph.nodes}
+                if len(set(step)) < len(step) or set(step) & copies:
+                    tag = ":step-name-clash"
+            self.fail("search", f"unroll-raised-{o}" + tag, f"unroll raised {o}", case)
             return
         uc, io_map = r
         rng = self.rng
@@ -269,6 +277,11 @@ class P(Prop):
         c.add("a_cg_unroll_0", "input")
         c.add("o", "and", fanin=["a", "a_cg_unroll_0"], output=True)
         self.check_unroll(c, 2, {})
+        # K50 (known): a per-step io name that equals the name of a spliced copy
+        c = cg.Circuit()
+        c.add("unrolled_0_a", "input")
+        c.add("a_cg_unroll_0", "buf", fanin=["unrolled_0_a"], output=True)
+        self.check_unroll(c, 1, {})
         # K15: unconnected Q pin with remove_unloaded=True
         c = cg.Circuit()
         c.add("a", "input")
